@@ -108,9 +108,9 @@ type Model struct {
 	rrInvoked int
 	maxPool   int
 
-	viol []simkit.Violation
+	viol     []simkit.Violation
 	aggKnown bool
-	pd *donePending
+	pd       *donePending
 	// Coverage probes.
 	Probes map[string]int
 	hash   uint64
@@ -146,6 +146,7 @@ type rrObs struct {
 	epoch int
 }
 
+//go:norace
 func NewModel(s *Sim) *Model {
 	m := &Model{s: s, conns: map[int]*connM{}, keys: map[string]int{}, fb: map[string]int{}, calls: map[int]*callM{}, Probes: map[string]int{}, hash: 1469598103934665603}
 	c := s.plan.Cfg
@@ -191,6 +192,7 @@ func NewModel(s *Sim) *Model {
 	return m
 }
 
+//go:norace
 func (m *Model) v(prop, rule, facts, msg string, op int) {
 	sig := prop + "|" + rule
 	if facts != "" {
@@ -199,8 +201,10 @@ func (m *Model) v(prop, rule, facts, msg string, op int) {
 	m.viol = append(m.viol, simkit.Violation{Property: prop, Rule: rule, Sig: sig, Msg: msg, Op: op})
 }
 
+//go:norace
 func (m *Model) probe(n string) { m.Probes[n]++ }
 
+//go:norace
 func (m *Model) poolSize() int {
 	n := 0
 	for _, c := range m.chans {
@@ -211,6 +215,7 @@ func (m *Model) poolSize() int {
 	return n
 }
 
+//go:norace
 func (m *Model) aggregate() connectivity.State {
 	ready, conn := false, false
 	for _, c := range m.chans {
@@ -233,6 +238,7 @@ func (m *Model) aggregate() connectivity.State {
 	return connectivity.TransientFailure
 }
 
+//go:norace
 func (m *Model) readySet() map[int]bool {
 	r := map[int]bool{}
 	for _, c := range m.chans {
@@ -243,6 +249,7 @@ func (m *Model) readySet() map[int]bool {
 	return r
 }
 
+//go:norace
 func (m *Model) readyList() []int {
 	var r []int
 	for _, c := range m.chans {
@@ -253,6 +260,7 @@ func (m *Model) readyList() []int {
 	return r
 }
 
+//go:norace
 func (m *Model) chanOfConn(id int) (*chanM, *connM) {
 	c := m.conns[id]
 	if c == nil || c.ch < 0 {
@@ -263,6 +271,8 @@ func (m *Model) chanOfConn(id int) (*chanM, *connM) {
 
 // stateHash records a hash of the abstract state after each operation
 // (distinct-states coverage measure).
+//
+//go:norace
 func (m *Model) stateHash() {
 	h := uint64(1469598103934665603)
 	mix := func(x uint64) { h ^= x; h *= 1099511628211 }
@@ -296,6 +306,8 @@ func (m *Model) stateHash() {
 }
 
 // On consumes one event.
+//
+//go:norace
 func (m *Model) On(ev Event) {
 	switch ev.Kind {
 	case EvOpStart:
@@ -331,6 +343,7 @@ func (m *Model) On(ev Event) {
 
 // ---------------------------------------------------------------- core ops
 
+//go:norace
 func (m *Model) opStart(ev Event) {
 	o := &coreOp{op: ev.Op, kind: ev.Note, conn: ev.Conn, state: ev.State, addrs: ev.Addrs,
 		aggBefore: m.aggregate(), aggKnown: m.aggKnown, readyBef: m.readySet(), upd: map[int]bool{}, conn2: map[int]bool{}, swapOld: -1, swapCh: -1}
@@ -394,6 +407,8 @@ func (m *Model) opStart(ev Event) {
 
 // afterReadyChange maintains the observed stand-in table (C08): a stand-in is
 // dropped when it leaves READY and when the key's home is READY again.
+//
+//go:norace
 func (m *Model) afterReadyChange(ch *chanM) {
 	for k, t := range m.fb {
 		if t == ch.idx && (ch.state != connectivity.Ready || ch.gone) {
@@ -405,6 +420,7 @@ func (m *Model) afterReadyChange(ch *chanM) {
 	}
 }
 
+//go:norace
 func (m *Model) newSC(ev Event) {
 	switch ev.Phase {
 	case PhDone:
@@ -448,6 +464,7 @@ func (m *Model) newSC(ev Event) {
 	}
 }
 
+//go:norace
 func (m *Model) opKind() string {
 	if m.op == nil {
 		return "?"
@@ -455,12 +472,14 @@ func (m *Model) opKind() string {
 	return m.op.kind
 }
 
+//go:norace
 func (m *Model) newSCFail(ev Event) {
 	if m.op != nil && ev.Phase == PhCore {
 		m.op.newFail++
 	}
 }
 
+//go:norace
 func (m *Model) removeSC(ev Event) {
 	if m.op != nil {
 		m.op.removed = append(m.op.removed, ev.Conn)
@@ -480,6 +499,7 @@ func (m *Model) removeSC(ev Event) {
 	}
 }
 
+//go:norace
 func (m *Model) published(ev Event) {
 	p := pubM{state: ev.State, ready: m.readyList(), seq: ev.Seq}
 	m.pubs = append(m.pubs, p)
@@ -488,6 +508,7 @@ func (m *Model) published(ev Event) {
 	}
 }
 
+//go:norace
 func (m *Model) opEnd(ev Event) {
 	o := m.op
 	if o == nil {
@@ -613,6 +634,7 @@ type expect struct {
 	standIn string // key whose stand-in is being chosen
 }
 
+//go:norace
 func set(xs ...int) map[int]bool {
 	s := map[int]bool{}
 	for _, x := range xs {
@@ -621,6 +643,7 @@ func set(xs ...int) map[int]bool {
 	return s
 }
 
+//go:norace
 func (m *Model) pickInvoke(ev Event) {
 	c := m.s.calls[ev.Call]
 	cm := &callM{ch: -1}
@@ -642,6 +665,7 @@ func (m *Model) pickInvoke(ev Event) {
 	cm.ex = &ex
 }
 
+//go:norace
 func (m *Model) expectPick(c *Call, cm *callM) expect {
 	p := m.pubs[c.PubIdx]
 	latest := c.PubIdx == len(m.pubs)-1
@@ -757,6 +781,7 @@ func (m *Model) expectPick(c *Call, cm *callM) expect {
 		why: fmt.Sprintf("pool at maxSize %d, counts %v", m.cfg.max, m.counts(p.ready))}
 }
 
+//go:norace
 func (m *Model) refreshFact(ch *chanM) string {
 	if ch.k[0] > 0 || m.s.env.Conns[ch.cur].CreatedPhase == PhDone {
 		return "|after_refresh=1"
@@ -764,6 +789,7 @@ func (m *Model) refreshFact(ch *chanM) string {
 	return "|after_refresh=0"
 }
 
+//go:norace
 func (m *Model) counts(chs []int) []int {
 	out := make([]int, len(chs))
 	for i, c := range chs {
@@ -772,6 +798,7 @@ func (m *Model) counts(chs []int) []int {
 	return out
 }
 
+//go:norace
 func (m *Model) pickReturn(ev Event) {
 	c := m.s.calls[ev.Call]
 	cm := m.calls[ev.Call]
@@ -877,6 +904,7 @@ func (m *Model) pickReturn(ev Event) {
 	}
 }
 
+//go:norace
 func keysOf(s map[int]bool) []int {
 	var o []int
 	for k := range s {
@@ -887,6 +915,8 @@ func keysOf(s map[int]bool) []int {
 }
 
 // rrReturn checks C09 for a round-robin BIND pick.
+//
+//go:norace
 func (m *Model) rrReturn(c *Call, cm *callM, placedCh int, ev Event) {
 	if c.Res.Kind != ResPlaced || placedCh < 0 {
 		m.v("C09", "rr-bind-not-assigned", "", fmt.Sprintf("round-robin BIND call %d returned %s", c.ID, c.Res), ev.Op)
@@ -921,6 +951,8 @@ func (m *Model) rrReturn(c *Call, cm *callM, placedCh int, ev Event) {
 
 // PredictRR returns the channel a pending round-robin pick is heading for, if
 // earlier observations determine it.
+//
+//go:norace
 func (m *Model) PredictRR(cm *callM) (int, bool) {
 	n := cm.rrN
 	if n == 0 {
@@ -939,15 +971,15 @@ func (m *Model) PredictRR(cm *callM) (int, bool) {
 // ---------------------------------------------------------------- completions
 
 type donePending struct {
-	must   [2]bool
-	ambig  bool
-	ch     *chanM
-	call   int
-	detect bool
+	must    [2]bool
+	ambig   bool
+	ch      *chanM
+	call    int
+	detect  bool
 	fromSeq int
 }
 
-
+//go:norace
 func (m *Model) doneInvoke(ev Event) {
 	c := m.s.calls[ev.Call]
 	cm := m.calls[ev.Call]
@@ -999,6 +1031,7 @@ func (m *Model) doneInvoke(ev Event) {
 	m.pd = pd
 }
 
+//go:norace
 func (m *Model) doneReturn(ev Event) {
 	c := m.s.calls[ev.Call]
 	cm := m.calls[ev.Call]
@@ -1090,6 +1123,8 @@ func (m *Model) doneReturn(ev Event) {
 
 // NextBoundary returns how long until the unresponsive window of channel idx
 // ends (reading A), for boundary-biased clock advances.
+//
+//go:norace
 func (m *Model) NextBoundary(sel int, now time.Duration) (time.Duration, bool) {
 	if len(m.chans) == 0 || !m.cfg.detect {
 		return 0, false
@@ -1104,6 +1139,8 @@ func (m *Model) NextBoundary(sel int, now time.Duration) (time.Duration, bool) {
 
 // modelKeys computes, from the statement of key extraction, the keys a message
 // built from ks carries at the locator.
+//
+//go:norace
 func modelKeys(locator string, ks []string, nilMsg bool) ([]string, error) {
 	if nilMsg {
 		return nil, fmt.Errorf("nil message")
@@ -1125,6 +1162,7 @@ func modelKeys(locator string, ks []string, nilMsg bool) ([]string, error) {
 	return nil, fmt.Errorf("locator %q does not resolve to strings", locator)
 }
 
+//go:norace
 func modelKeysZero(locator string) ([]string, error) {
 	switch locator {
 	case "name":
